@@ -374,10 +374,8 @@ This command wraps "go %s". Below is its help:
 %s`[1:], command, command, out)
 		return nil, errJustExit(2)
 	}
-	for _, flag := range flags {
-		if rxGarbleFlag.MatchString(flag) {
-			return nil, fmt.Errorf("garble flags must precede command, like: garble %s build ./pkg", flag)
-		}
+	if flag := misplacedGarbleFlag(flags); flag != "" {
+		return nil, fmt.Errorf("garble flags must precede command, like: garble %s build ./pkg", flag)
 	}
 
 	// Here is the only place we initialize the cache.
@@ -660,6 +658,29 @@ func filterForwardBuildFlags(flags []string) (filtered []string, firstUnknown st
 		}
 	}
 	return filtered, firstUnknown
+}
+
+// misplacedGarbleFlag returns the first of garble's own flags found among
+// the flags given to a Go command, if any. The value of a "-name value" flag
+// is skipped like the go command does, even if it looks like a garble flag.
+func misplacedGarbleFlag(flags []string) string {
+	for i := 0; i < len(flags); i++ {
+		arg := flags[i]
+		if rxGarbleFlag.MatchString(arg) {
+			return arg
+		}
+		name := arg
+		if strings.HasPrefix(name, "--") {
+			name = name[1:] // "--name" to "-name"
+		}
+		if booleanFlags[name] || strings.Contains(arg, "=") {
+			// Either "-bool" or "-name=value".
+			continue
+		}
+		// "-name value", so the next arg is part of this flag.
+		i++
+	}
+	return ""
 }
 
 // rejectUnknownBuildFlags errors on the first non-build flag in flags, if any.
